@@ -97,6 +97,9 @@ type BlockPlan struct {
 	// SkipProcess finalises the block without asking ProcessProposal first (a block that only a faulty
 	// majority could have decided, e.g. one carrying transactions the admission guard refuses).
 	SkipProcess bool
+	// LockOU / BridgeOU ("others unknown"): the block message also carries possibly failing requests of another module, so the
+	// locking / bridge trace can only demand "accepted => my requests were acceptable" and "failed => my state untouched".
+	LockOU, BridgeOU bool
 }
 
 // HaltError reports that FinalizeBlock failed: on a real network the chain stops here.
@@ -239,7 +242,7 @@ func (s *Session) RunBlock(p *BlockPlan) (*BlockResult, error) {
 			abs = EmptyLockAbs()
 			abs["gas"] = []int64{p.GasFee}
 		}
-		s.emit(s.LockW, "blockmsg", Ev{"ok": res.TxResults[0].Code == 0, "otherOk": true, "r": abs, "delivered": delivered, "log": short(res.TxResults[0].Log)})
+		s.emit(s.LockW, "blockmsg", Ev{"ok": res.TxResults[0].Code == 0, "otherOk": true, "ou": p.LockOU, "r": abs, "delivered": delivered, "log": short(res.TxResults[0].Log)})
 		st, err := project.Locking(c)
 		if err != nil {
 			return nil, err
@@ -273,7 +276,7 @@ func (s *Session) RunBlock(p *BlockPlan) (*BlockResult, error) {
 		if abs == nil {
 			abs = Ev{"withdraws": []Ev{}, "rbf": []Ev{}, "cancel1": []int64{}, "tax": []Ev{}, "conf": []int64{}, "minDep": []int64{}}
 		}
-		s.emit(s.BridgeW, "blockmsg", Ev{"ok": res.TxResults[0].Code == 0, "otherOk": true, "r": abs, "delivered": delivered, "log": short(res.TxResults[0].Log)})
+		s.emit(s.BridgeW, "blockmsg", Ev{"ok": res.TxResults[0].Code == 0, "otherOk": true, "ou": p.BridgeOU, "r": abs, "delivered": delivered, "log": short(res.TxResults[0].Log)})
 		for i, t := range p.Txs {
 			r := res.TxResults[i+1]
 			ev, f := t.BEv, t.BF
